@@ -58,7 +58,9 @@ MonUpdate ==
                                                slvl |-> E.slvl, s |-> E.s, xf |-> E.xf, xc |-> E.xc])
                          /\ UNCHANGED <<mNs, mConv, mLost>>
       [] E.e = "Ns"   -> mNs' = E.ret /\ UNCHANGED <<mon, mConv, mLost>>
-      [] E.e = "Crit" -> mConv' = (IF E.ret THEN "T" ELSE "F") /\ UNCHANGED <<mon, mNs, mLost>>
+      [] E.e = "Crit" -> /\ mConv' = (IF E.ret THEN "T" ELSE "F") /\ UNCHANGED <<mon, mNs, mLost>>
+                         /\ (IF "alpha" \in DOMAIN E /\ E.alpha[1] # E.alpha[2]
+                             THEN PrintT(<<"VIOL", Id, ln, "RateIsTheRegressedOrGivenOne", "crit">>) ELSE TRUE)
       [] E.e = "Lost" -> mLost' = mLost + 1 /\ UNCHANGED <<mon, mNs, mConv>>
       [] OTHER        -> KeepMon
 
@@ -180,8 +182,11 @@ Checks == IF ~V_Numeric THEN << <<"Numeric", FALSE>> >> ELSE
              <<"LevelBound", W_LevelBound>>, <<"ExitOnCriteria", W_ExitOnCriteria>>,
              <<"AllocationMet", W_AllocationMet>>, <<"FixedShape", W_FixedShape>> >>
 Failed == SelectSeq(Checks, LAMBDA c : ~c[2])
+\* how the run ended: the results are set right before the return; before that comes the bias test (return branch) or the
+\* extension of the arrays at the end of a pass (the loop condition failed: the fall-out exit)
 Sig == IF H.fixed THEN "fixed" ELSE IF mConv = "T" THEN "converged"
-       ELSE IF NObs - 1 = H.LMax THEN "maxlevel" ELSE "fallout"
+       ELSE IF NObs - 1 = H.LMax THEN "maxlevel"
+       ELSE IF ln >= 3 /\ T[ln - 2].e = "Crit" THEN "failed-test-return" ELSE "fallout"
 
 RetStep ==
     /\ Is("Ret") /\ (drifted \/ ~ENABLED Silent)
